@@ -29,6 +29,11 @@ def gen_recipients(rng, n=None, heavy=0.1):
             if rng.random() < 0.25:
                 subs.append({'alg': rng.choice(['cv25519', 'ecdh_p256']), 'usage': 'E'})
             spec = {'alg': rng.choice(['ed25519', 'ed25519', 'p256']), 'usage': 'CS', 'subkeys': subs}
+        if rng.random() < 0.18:
+            # a recipient key made by another implementation: ECDH subkey whose KDF parameters are not PGPy's per-curve
+            # defaults (RFC 6637 lets the key owner choose them)
+            spec = {'foreign': True, 'alg': 'ed25519', 'usage': 'CS', 'curve': rng.choice(['cv25519', 'cv25519', 'ecdh_p256', 'ecdh_p384', 'ecdh_p521']),
+                    'kdf': rng.choice([[8, 7], [10, 9], [9, 8], [10, 7], [8, 9], [9, 9]]), 'subkeys': []}
         spec['uids'] = [['Recipient %d' % i, '', 'r%d@example.org' % i]]
         spec['created_us'] = 1_450_000_000_000_000 + i * 1_000_000
         keys['r%d' % i] = spec
@@ -100,8 +105,23 @@ class Recipients(object):
     def __init__(self, cfg, label='enc'):
         self.keys = {}
         for name in sorted(cfg):
-            self.keys[name] = world.build_key(cfg[name], label + name)
+            if cfg[name].get('foreign'):
+                self.keys[name] = self._foreign(cfg[name], label + name)
+            else:
+                self.keys[name] = world.build_key(cfg[name], label + name)
         self.cfg = cfg
+
+    @staticmethod
+    def _foreign(spec, label):
+        import pgpy
+        created = spec['created_us'] // 1_000_000
+        rs = seams.rnd().run_seed
+        pb, palg, psec = rkeys.gen_key('ed25519', created, seams.derive(rs, 'foreign:' + label, 'primary', 32))
+        sb, salg, ssec = rkeys.gen_key(spec['curve'], created, seams.derive(rs, 'foreign:' + label, 'sub', 72 if spec['curve'] != 'cv25519' else 32),
+                                       kdf=spec['kdf'])
+        tkb = bridge.build_ref_tkey(pb, palg, psec, ('%s <%s@example.org>' % (spec['uids'][0][0], label)).encode(), created,
+                                    secret_export=True, subkeys=[(sb, salg, ssec, 0x0C)])
+        return pgpy.PGPKey.from_blob(tkb)[0]
 
     def ref_secrets(self, name):
         """(PubKey, secret) for every component of the key, via the exported secret octets."""
